@@ -1,4 +1,4 @@
---! kinds: Q F
+--! kinds: Q R F
 /-
 Model of the instant-level part of pymeeus/Epoch.py (hand-written from the source; tied to the
 source by the correspondence check): `get_full_date`, the argument dispatch of `Epoch.set` /
